@@ -153,12 +153,12 @@ def check_transitivity(cx, u, groups, obs):
 # ------------------------------------------------------------------- sorted
 def sort_elem(m, e):
     """ValSort's compact element -> abstract value"""
-    if m == "num":                      # [num, den, 0 = int | 1 = decimal]
+    if m in ("num", "numkey"):          # [num, den, 0 = int | 1 = decimal]
         return M.mk("dec" if e[2] else "int", e[:2])
     return M.a_list([M.a_int(e[0]), M.a_str(chr(96 + e[1]))])
 
 
-SORT_CALL = {"num": "sorted(%s)", "plain": "sorted(%s)", "key": "sorted(%s, key = fn(x) x[0])",
+SORT_CALL = {"num": "sorted(%s)", "numkey": "sorted(%s, key = fn(x) [type(x), x])", "plain": "sorted(%s)", "key": "sorted(%s, key = fn(x) x[0])",
              "keyrev": "sorted(%s, cmp = fn(a, b) compare(b, a), key = fn(x) x[0])"}
 
 
